@@ -442,6 +442,9 @@ class ClassEval:
                 raise AnalysisError("%s (a generator) is not evaluable" % mname)
             return list(produced)
         if res.raised:
+            if getattr(self, "allow_raise", False):
+                self.last_raised = res.raised          # the caller looks at the state the method left behind
+                return None
             raise AnalysisError("%s raises %s on this input" % (mname, res.raised))
         leftover = [e.text for e in res.effects]
         if leftover:
